@@ -165,7 +165,43 @@ func runC02(c *Ctx) {
 	// the host table the destination is resolved through (shared with C13)
 	c13AliasTable(c)
 	ruleNumberParsing(c, "default-port", 2, "parseViaParam", "(*ViaParam).GetRPort")
+	c02RPortAnswer(c)
 	ruleDatagramBuffer(c, "drop")
+}
+
+// c02RPortAnswer: GetRPort answers "no error" only with the number it parsed. The hop function falls back to the sent-by
+// port exactly when GetRPort fails, so a success that carries a constant (a bare ";rport" answered with 0, nil) sends
+// the response to port 0 (seeded change C02-r11m1).
+func c02RPortAnswer(c *Ctx) {
+	w := c.w
+	rule := "default-port"
+	f := c.fn(rule, "(*ViaParam).GetRPort")
+	if f == nil {
+		return
+	}
+	n := 0
+	eachInstr(f, func(in ssa.Instruction) {
+		ret, ok := in.(*ssa.Return)
+		if !ok || len(ret.Results) != 2 {
+			return
+		}
+		n++
+		for _, e := range phiLeaves(ret.Results[1]) {
+			if !isNilConst(e) {
+				continue
+			}
+			for _, v := range phiLeaves(ret.Results[0]) {
+				if _, isConst := strip(v).(*ssa.Const); isConst {
+					c.bad(rule, fmt.Sprintf("GetRPort/success-is-parsed#%d", n), w.ipos(ret), "GetRPort can answer a constant port together with a nil error: getNextReponseHop uses the sent-by port only when GetRPort fails, so a Via with received= and a valueless rport is answered to that constant port")
+					return
+				}
+			}
+		}
+		c.ok(rule, fmt.Sprintf("GetRPort/success-is-parsed#%d", n), w.ipos(ret), "no constant port is returned with a nil error")
+	})
+	if n == 0 {
+		c.undecided(rule, "GetRPort/success-is-parsed", "-", "no two-result return found in GetRPort")
+	}
 }
 
 func c02HopProvenance(c *Ctx, hf *ssa.Function) {
